@@ -127,6 +127,9 @@ def dump_scalar(scalar, version=LATEST_VER):
             isinstance(scalar, int):
         return dump_decimal(scalar, version=version)
     elif isinstance(scalar, Grid):
+        if _pre_3_0(version):
+            raise ValueError('Project Haystack %s ' \
+                             'does not support nested grids' % version)
         return _dump_grid_to_json(scalar)
     else:  # pragma: no cover
         raise NotImplementedError('Unhandled case: %r' % scalar)
@@ -149,6 +152,9 @@ def dump_bin(bin_value, version=LATEST_VER):
 
 
 def dump_xstr(xstr_value, version=LATEST_VER):
+    if _pre_3_0(version):
+        raise ValueError('Project Haystack %s ' \
+                         'does not support XStr' % version)
     return u'x:%s:%s' % (xstr_value.encoding, xstr_value.data_to_string())
 
 
